@@ -18,7 +18,8 @@ def run_exact(tier, seed):
     witnesses, tot = [], {"states": 0, "transitions": 0, "programs": 0, "facts": 0, "nontrivial": 0}
     for fam in FAMILIES:
         cases, gen = observed(fam, SIZES[tier][fam], seed, ("cfg", "func", "ctx", "det"))
-        ok = [c for c in cases if c["obs"]["ok"]]
+        # the direct-check fragment of C03 / the exactness clauses excludes recursion (skeleton 26)
+        ok = [c for c in cases if c["obs"]["ok"] and c["desc"].get("skel") != 26]
         tot["programs"] += len(ok)
         slim = [{"pid": c["pid"], "prog": c["prog"], "obs": {"ok": True}} for c in ok]
         outs = run_chunked("ExactWalk", CFG, slim, "walk-%s" % fam)
